@@ -34,7 +34,7 @@ PROPS = {
                 "nested inside update functions - recorded as an operation; swap! through the builtin update with a callback reading the atom being swapped; fault: one operation in eight runs under a context of its own that is "
                 "cancelled at a drawn hook point inside it (an operation that ended with that timeout error is placed by whether anybody saw its unique token); memoize histories additionally require that a call invoked after an earlier call with the same argument returned "
                 "does not compute again. Two rare run shapes for long histories: siege (1 run in 120: the scheduler parks one swap! in every read/apply window and lets a second thread complete one reset! each time, 40-2100 rounds in a row; "
-                "the whole history goes to porcupine) and flood (1 run in 150: 100-700 memoized calls with distinct arguments against concurrent lookups of seven small ones; values only are judged). Scheduling: seeded quantum walk, PCT (depth 1-3) or starvation, at evaluation steps, statement-level yields "
+                "the whole history goes to porcupine) and flood (1 run in 100: 100-700 memoized calls with distinct arguments against concurrent lookups of seven small ones; values only are judged). Scheduling: seeded quantum walk, PCT (depth 1-3) or starvation, at evaluation steps, statement-level yields "
                 "inserted into lib/concurrent/concurrent.go, lock acquisitions (with RWMutex writer preference emulated) and the swap! read/apply/retry windows. "
                 "non-trivial = at least 2 tasks, more than one token switch and at least one preemption inside a named or auto-inserted window; "
                 "distinct = distinct hash of the sequence of (task, hook point) pairs at which the token changed hands",
